@@ -114,6 +114,27 @@ def check_group(rep, M, L, inp):
                     red, _ = orc.info(w)
                     if dgeo.accepts(w) != red:
                         rep.fail("geodesic_accepts_iff_reduced", f"group given by a diagram on the nodes 0..{rank - 1}, word {w}: reduced={red}", {**inp, "word": list(w), "labels": "diagram nodes"}); return False
+        # diagrams whose integer node nnames overlap 0..rank-1 without matching the positions (the automaton is generated over 0..rank-1 and then renamed)
+        for nnames in ([[1, 0, 2], [1, 2, 3], [2, 0, 1], [2, 1, 0]] if rank == 3 else []) + ([[1, 0], [1, 2]] if rank == 2 else []):
+            dia2 = [(nnames[i], nnames[j], M[i][j]) for i in range(rank) for j in range(i + 1, rank)]
+            G2 = coxeter.CoxeterGroup(diagram=dia2)
+            if sorted(G2.ordered_gens) != sorted(nnames):
+                continue
+            where = {g: nnames.index(g) for g in nnames}            # node name -> row of M
+            g_geo, g_slx = G2.automaton(shortlex=False), G2.automaton(shortlex=True)
+            for n in range(0, min(L, 4) + 1):
+                n_elems = len({orc.info(w)[1] for w in itertools.product(range(rank), repeat=n) if orc.info(w)[0]})
+                n_slx = 0
+                for w in itertools.product(nnames, repeat=n):
+                    red, _ = orc.info(tuple(where[g] for g in w))
+                    if g_geo.accepts(w) != red:
+                        rep.fail("geodesic_accepts_iff_reduced", f"diagram with nodes named {nnames}, word {w}: reduced={red}", {**inp, "word": list(w), "node_nnames": nnames}); return False
+                    acc = g_slx.accepts(w)
+                    if acc and not red:
+                        rep.fail("shortlex_accepts_exactly_the_least_reduced_word", f"diagram with nodes named {nnames}: non-reduced word {w} accepted", {**inp, "word": list(w), "node_nnames": nnames}); return False
+                    n_slx += bool(acc)
+                if n_slx != n_elems:
+                    rep.fail("growth_series", f"diagram with nodes named {nnames}, length {n}: {n_slx} accepted shortlex words, {n_elems} elements", {**inp, "length": n, "node_nnames": nnames}); return False
     even_geo = G.automaton(shortlex=False, even_length=True)
     even_slx = G.automaton(shortlex=True, even_length=True)
     can = G.canonical_representation()
